@@ -11,9 +11,9 @@ CLAUSES = {"Cl_Admissible": "every reported state: feed mass > 0, fractions in [
 MANIFEST = {
     "text": "TLC model-checks the guarded Process machine with exact rationals and feed-exhausting fluxes (every returned run reports only "
             "admissible states; the unguarded machine is a negative configuration that must violate it) and validates every reported "
-            "state of recorded coarse and ordinary runs of the real models.",
+            "state of recorded coarse and ordinary runs of the real models. tlapm proves for every N, arithmetic and environment that a returned guarded run of the same specification reports admissible states only.",
     "note": "Scenarios sampled (seeded). Trusted: TLC, Java overrides, recorder.",
-    "technique": "TLA+ state machine + TLC (exact rationals) + TLC trace validation of recorded coarse process runs",
+    "technique": "TLA+ state machine + TLC (exact rationals) + TLC trace validation of recorded coarse process runs + TLAPS proofs about the same specification module (tlapm)",
 }
 
 
